@@ -13,6 +13,8 @@ def as_iter(self, v):
   v = self.deref(v)
   if isinstance(v, IterView):
     return v
+  if isinstance(v, SV) and getattr(v.sort, 'iter_hook', None):
+    return v.sort.iter_hook(self, v)
   if isinstance(v, SV) and isinstance(v.sort, Union):
     v = self.unwrap(v)
   if isinstance(v, PyTuple):
@@ -342,102 +344,97 @@ def comprehension(self, n, env, kind):
   e = Env(env)
   saved = self.spec_mode
   self.spec_mode = True
-  self.bound_vars.append(k)
+  self.push_binders([k])
+  # phase 1 (under the binder k): evaluate the element / key / value / condition expressions
   try:
     self.assign(g.target, it.at(k), e)
     conds = [self.truthy(self.eval(c, e)) for c in g.ifs]
-    inr = z3.And(k >= 0, k < it.length)
-    if kind in ('list', 'tuple') and conds:
-      # order-preserving filter: r[j] = el(idx(j)) with idx strictly increasing over exactly the
-      # positions that pass the conditions
-      el = self.eval(n.elt, e)
-      hint = self.type_hint(n)
+    if kind == 'dict':
+      key_v, val_v = self.eval(n.key, e), self.eval(n.value, e)
+      el_v = None
+    else:
+      el_v = self.eval(n.elt, e)
+    hint = self.type_hint(n)
+    if kind in ('list', 'tuple', 'set') :
       if hint is None:
-        s0 = self.sort_of(el)
+        s0 = self.sort_of(el_v)
         if s0 is None:
           raise OutsideSubset('comprehension element of unknown sort')
-        hint = SeqOf(s0)
-      el = self.coerce(el, hint.elem)
-      r = hint.const('filt')
-      idx = z3.Function(fresh_name('fidx'), z3.IntSort(), z3.IntSort())
-      pos = z3.Function(fresh_name('fpos'), z3.IntSort(), z3.IntSort())
-      j, j2 = z3.Int(fresh_name('j')), z3.Int(fresh_name('j2'))
-      cond = z3.And(inr, *conds)
-      inj = z3.And(j >= 0, j < hint.len(r))
-      self.assume(hint.len(r) >= 0)
-      self.assume(hint.len(r) <= it.length)
-      body_at = lambda t: z3.substitute(z3.And(cond, hint.get(r, j) == el.t), (k, t))
-      self.assume(qforall([j], z3.Implies(inj, z3.And(body_at(idx(j)), pos(idx(j)) == j)), patterns=[hint.get(r, j)]))
-      self.assume(qforall([j, j2], z3.Implies(z3.And(inj, j2 >= 0, j2 < hint.len(r), j < j2), idx(j) < idx(j2)),
-                          patterns=[z3.MultiPattern(idx(j), idx(j2))]))
-      self.assume(qforall([k], z3.Implies(cond, z3.And(pos(k) >= 0, pos(k) < hint.len(r), idx(pos(k)) == k)), patterns=[pos(k)]))
-      res = SV(hint, r)
-      self.ghost['filter_idx'] = idx
-    elif kind in ('list', 'tuple'):
-      el = self.eval(n.elt, e)
-      hint = self.type_hint(n)
-      if hint is None:
-        s0 = self.sort_of(el)
-        if s0 is None:
-          raise OutsideSubset('comprehension element of unknown sort')
-        hint = SeqOf(s0)
-      el = self.coerce(el, hint.elem)
-      r = hint.const('comp')
-      self.assume(hint.len(r) == it.length)
-      self.assume(qforall([k], z3.Implies(inr, hint.get(r, k) == el.t), patterns=[hint.get(r, k)]))
-      res = SV(hint, r)
-    elif kind == 'set':
-      el = self.eval(n.elt, e)
-      hint = self.type_hint(n) or SetOf(self.sort_of(el))
-      el = self.coerce(el, hint.elem)
-      r = hint.const('scomp')
-      x = z3.Const(fresh_name('x'), hint.elem.z3())
-      wit = z3.Function(fresh_name('wit'), hint.elem.z3(), z3.IntSort())
-      cond = z3.And(inr, *conds)
-      self.assume(qforall([k], z3.Implies(cond, z3.Select(r, el.t)), patterns=[el.t] if not z3.is_const(el.t) or True else None))
-      body = z3.substitute(z3.And(cond, el.t == x), (k, wit(x)))
-      self.assume(qforall([x], z3.Implies(z3.Select(r, x), body), patterns=[z3.Select(r, x)]))
-      res = SV(hint, r)
-    elif kind in ('any', 'all'):
-      el = self.truthy(self.eval(n.elt, e))
-      cond = z3.And(inr, *conds)
-      res = SV(BOOL, z3.Exists([k], z3.And(cond, el)) if kind == 'any' else qforall([k], z3.Implies(cond, el)))
+        hint = SeqOf(s0) if kind in ('list', 'tuple') else SetOf(s0)
+      el = self.coerce(el_v, hint.elem)
     elif kind == 'dict':
-      hint = self.type_hint(n)
       if hint is None:
         raise OutsideSubset('dict comprehension without sort hint')
-      kk = self.coerce(self.eval(n.key, e), hint.key)
-      vv = self.coerce(self.eval(n.value, e), hint.val)
-      r = hint.const('dcomp')
-      x = z3.Const(fresh_name('x'), hint.key.z3())
-      wit = z3.Function(fresh_name('wit'), hint.key.z3(), z3.IntSort())
-      cond = z3.And(inr, *conds)
-      # every produced key is present; every present key was produced by its (last) witness index
-      self.assume(qforall([k], z3.Implies(cond, hint.has(r, kk.t)), patterns=[kk.t]))
-      body = z3.substitute(z3.And(cond, kk.t == x, hint.get(r, x) == vv.t), (k, wit(x)))
-      self.assume(qforall([x], z3.Implies(hint.has(r, x), body), patterns=[hint.has(r, x)]))
-      # later duplicates win: the witness is the last index producing the key
-      j = z3.Int(fresh_name('cj'))
-      self.assume(qforall([k], z3.Implies(cond, k <= wit(kk.t)), patterns=[kk.t]))
-      for f in hint.keys_wf(r):
-        self.assume(f)
-      # insertion order: when the produced keys are pairwise distinct (and nothing is filtered
-      # out) the dict has one entry per item, in iteration order
-      if not conds:
-        k2 = z3.Int(fresh_name('ck'))
-        kk2 = z3.substitute(kk.t, (k, k2))
-        inr2 = z3.And(k2 >= 0, k2 < it.length)
-        distinct = z3.ForAll([k, k2], z3.Implies(z3.And(inr, inr2, k != k2), kk.t != kk2))
-        KS = hint.keyseq
-        ksr = hint.keys(r)
-        self.assume(z3.Implies(distinct, z3.And(KS.len(ksr) == it.length,
-                                               qforall([k], z3.Implies(inr, KS.get(ksr, k) == kk.t), patterns=[KS.get(ksr, k)]))))
-      res = SV(hint, r)
+      kk = self.coerce(key_v, hint.key)
+      vv = self.coerce(val_v, hint.val)
     else:
-      raise OutsideSubset(kind)
+      el_t = self.truthy(el_v)
   finally:
-    self.bound_vars.pop()
+    self.pop_binders(1)
     self.spec_mode = saved
+  # phase 2 (outside the binder): define the result
+  inr = z3.And(k >= 0, k < it.length)
+  if kind in ('list', 'tuple') and conds:
+    # order-preserving filter: r[j] = el(idx(j)) with idx strictly increasing over exactly the
+    # positions that pass the conditions
+    r = hint.const('filt')
+    idx = z3.Function(fresh_name('fidx'), z3.IntSort(), z3.IntSort())
+    pos = z3.Function(fresh_name('fpos'), z3.IntSort(), z3.IntSort())
+    j, j2 = z3.Int(fresh_name('j')), z3.Int(fresh_name('j2'))
+    cond = z3.And(inr, *conds)
+    inj = z3.And(j >= 0, j < hint.len(r))
+    self.assume(hint.len(r) >= 0)
+    self.assume(hint.len(r) <= it.length)
+    body_at = lambda t: z3.substitute(z3.And(cond, hint.get(r, j) == el.t), (k, t))
+    self.assume(qforall([j], z3.Implies(inj, z3.And(body_at(idx(j)), pos(idx(j)) == j)), patterns=[hint.get(r, j)]))
+    self.assume(qforall([j, j2], z3.Implies(z3.And(inj, j2 >= 0, j2 < hint.len(r), j < j2), idx(j) < idx(j2)),
+                        patterns=[z3.MultiPattern(idx(j), idx(j2))]))
+    self.assume(qforall([k], z3.Implies(cond, z3.And(pos(k) >= 0, pos(k) < hint.len(r), idx(pos(k)) == k)), patterns=[pos(k)]))
+    res = SV(hint, r)
+  elif kind in ('list', 'tuple'):
+    r = hint.const('comp')
+    self.assume(hint.len(r) == it.length)
+    self.assume(qforall([k], z3.Implies(inr, hint.get(r, k) == el.t), patterns=[hint.get(r, k)]))
+    res = SV(hint, r)
+  elif kind == 'set':
+    r = hint.const('scomp')
+    x = z3.Const(fresh_name('x'), hint.elem.z3())
+    wit = z3.Function(fresh_name('wit'), hint.elem.z3(), z3.IntSort())
+    cond = z3.And(inr, *conds)
+    self.assume(qforall([k], z3.Implies(cond, z3.Select(r, el.t)), patterns=[el.t]))
+    body = z3.substitute(z3.And(cond, el.t == x), (k, wit(x)))
+    self.assume(qforall([x], z3.Implies(z3.Select(r, x), body), patterns=[z3.Select(r, x)]))
+    res = SV(hint, r)
+  elif kind in ('any', 'all'):
+    cond = z3.And(inr, *conds)
+    res = SV(BOOL, z3.Exists([k], z3.And(cond, el_t)) if kind == 'any' else z3.ForAll([k], z3.Implies(cond, el_t)))
+  elif kind == 'dict':
+    r = hint.const('dcomp')
+    x = z3.Const(fresh_name('x'), hint.key.z3())
+    wit = z3.Function(fresh_name('wit'), hint.key.z3(), z3.IntSort())
+    cond = z3.And(inr, *conds)
+    # every produced key is present; every present key was produced by its (last) witness index
+    self.assume(qforall([k], z3.Implies(cond, hint.has(r, kk.t)), patterns=[kk.t]))
+    body = z3.substitute(z3.And(cond, kk.t == x, hint.get(r, x) == vv.t), (k, wit(x)))
+    self.assume(qforall([x], z3.Implies(hint.has(r, x), body), patterns=[hint.has(r, x)]))
+    # later duplicates win: the witness is the last index producing the key
+    self.assume(qforall([k], z3.Implies(cond, k <= wit(kk.t)), patterns=[kk.t]))
+    for f in hint.keys_wf(r):
+      self.assume(f)
+    # insertion order: when the produced keys are pairwise distinct (and nothing is filtered
+    # out) the dict has one entry per item, in iteration order
+    if not conds:
+      k2 = z3.Int(fresh_name('ck'))
+      kk2 = z3.substitute(kk.t, (k, k2))
+      inr2 = z3.And(k2 >= 0, k2 < it.length)
+      distinct = z3.ForAll([k, k2], z3.Implies(z3.And(inr, inr2, k != k2), kk.t != kk2))
+      KS = hint.keyseq
+      ksr = hint.keys(r)
+      self.assume(z3.Implies(distinct, z3.And(KS.len(ksr) == it.length,
+                                             qforall([k], z3.Implies(inr, KS.get(ksr, k) == kk.t), patterns=[KS.get(ksr, k)]))))
+    res = SV(hint, r)
+  else:
+    raise OutsideSubset(kind)
   if kind in ('list', 'set', 'dict') and not self.spec_mode:
     return self.new_box(res)
   return res
